@@ -430,6 +430,16 @@ def run_kernel(ctx):
                     if not ctx.mine(i) or (op == "mod" and form == "kwargs"):
                         continue
                     run_case(ctx, old, op, form, build_arg(form, vals), ("lv", form))
+    # keyword-argument keys that are also plausible PARAMETER names of the methods / helpers the call travels through: a key is data
+    # ('self' is left out: Python itself refuses u.with_query(self=...) for a method whose first parameter is not positional-only)
+    for kname in ("first", "rest", "args", "kwargs", "query", "q", "key", "value", "val", "name", "names", "encoded", "cls", "other", "url", "path", "arg", "item", "items", "k", "v",
+                  "params", "quoter", "pairs", "mapping", "data", "default", "x", "_", "__class__", "safe", "qs", "ret", "seq", "lst", "s"):
+        for extra in ([], [("zz", "n1")]):
+            for old in ("", "a=o0&" + kname + "=o1"):
+                for op in ("with_query", "extend_query", "update_query"):
+                    i += 1
+                    if ctx.mine(i):
+                        run_case(ctx, old, op, "kwargs", build_arg("kwargs", [(kname, "n0")] + extra), ("kwname",))
     # every way a key can be SPELLED in a parsed (or encoded=True) receiver: the named key is the decoded text
     spell = {
         "a b": ["a%20b", "a+b"], "k;": ["k;", "k%3B", "k%3b"], "a": ["a", "%61"], "é": ["é", "%C3%A9", "%c3%a9"], "k+": ["k%2B", "k%2b"], "k&": ["k%26"], "k=": ["k%3D", "k%3d"],
